@@ -95,6 +95,9 @@ class C17(Check):
         + str(len(P.user_flat_entries())) + ") of them with str/int-only fields, 3 old-style classes that implement only the "
         "get_hash/is_equal backend (vf/c17_usercls.py; pickle may refuse these with "
         "NotImplementedError, anything it accepts is held to every invariant), "
+        + str(len([e for e in P.legacy_arity_entries() if e["family"] == "user"]))
+        + " instances of old-style init-args classes with 0 (the empty state tuple; also over "
+        "a field-less dataclass node and as undecorated subclass), 1, 2 and 3 init args, "
         + str(len([e for e in P.postinit_entries() if e["family"] == "user"]))
         + " instances of expr_dataclass nodes with a __post_init__ (validating / idempotent "
         "normalisation / non-idempotent transformation of a plain, int or tuple field; "
